@@ -37,7 +37,7 @@ XOf(r) == [dry |-> r.cfg.dry,
 StepOfMatch(r, s, j) ==
    IF ~Scenario(r, s) THEN 0
    ELSE LET st == r.prog[s].steps
-            ds == IF r.cfg.dry THEN SelectSeq(Ids(Len(st)), LAMBDA p : st[p].def) ELSE Ids(Len(st)) IN
+            ds == IF r.cfg.dry /\ ~CodeGen.dryundef THEN SelectSeq(Ids(Len(st)), LAMBDA p : st[p].def) ELSE Ids(Len(st)) IN
         IF j \in DOMAIN ds THEN ds[j] ELSE 0
 AnnNext(r, a, e) ==
    LET plain == FE(e.name, e.el, e.pos, e.status, e.undefined, FALSE, e.n) IN
@@ -53,11 +53,11 @@ Has(r, name) == \E k \in DOMAIN r.formats : r.formats[k] = name
 
 \* ---------------------------------------------------------------- a run that died
 CrashOf(name, evs, X) ==
-   CASE name \in {"json", "json.pretty"} -> JsonRun(evs, X, NoFix).crash
+   CASE name \in {"json", "json.pretty"} -> JsonRun(evs, X, CodeFix).crash
      [] name = "plain" -> PlainRun(evs, X).crash
      [] name \in {"progress2", "progress3"} -> ProgRun(evs).crash
      [] name = "progress" -> SProgRun(evs, X).crash
-     [] name = "pretty" -> PrettyCrash(evs, NoFix)
+     [] name = "pretty" -> PrettyCrash(evs, CodeFix)
      [] OTHER -> ""
 Died(r) ==
    LET evs == Events(r)
@@ -104,11 +104,11 @@ Diverges(r) ==
    ELSE LET evs == Events(r)
             X == XOf(r)
             rp == r.reports
-            j == JsonRun(evs, X, NoFix)
+            j == JsonRun(evs, X, CodeFix)
         IN (IF rp.json.present /\ rp.json.valid /\ (j.crash # "" \/ j.out # rp.json.features) THEN {"json"} ELSE {})
            \cup (IF rp.json.present /\ rp.json.valid # (j.crash = "" /\ ToksValid(j.toks)) THEN {"json_text"} ELSE {})
            \cup (IF rp.json.present /\ rp.json.valid /\ rp.readback.done /\ rp.readback.exc = ""
-                    /\ ReadBack(rp.json.features, NoFix) # rp.readback.features THEN {"readback"} ELSE {})
+                    /\ ReadBack(rp.json.features, CodeFix) # rp.readback.features THEN {"readback"} ELSE {})
            \cup (IF rp.plain.present /\ PlainRun(evs, X).lines # rp.plain.lines THEN {"plain"} ELSE {})
            \cup (IF rp.p2.present /\ ProgRun(evs).p2 # rp.p2.lines THEN {"progress2"} ELSE {})
            \cup (IF rp.p3.present /\ ProgRun(evs).p3 # rp.p3.lines THEN {"progress3"} ELSE {})
